@@ -220,7 +220,7 @@ theorem expiry_unlocks (s : State) (h : Inv s) (d : Nat) (hd : s.cfg.reservation
 /-- a restart forgets every reservation -/
 theorem restart_unreserves (s : State) (f : Bool) : ∀ id, (s.restart f).isLocked id = false := by
   intro id
-  have hc := foldl_addSet_core s.bsets
+  have hc := foldl_addSet_core s.reloadable
     (if f then { s with locked := fun _ => 0, out := [], poolV1 := [], poolV2 := [] }
      else { s with locked := fun _ => 0, out := [] })
   unfold State.restart State.isLocked
@@ -228,6 +228,37 @@ theorem restart_unreserves (s : State) (f : Bool) : ∀ id, (s.restart f).isLock
   simp only
   rw [hc.2.2.1]
   cases f <;> simp
+
+/-- the state a restart starts re-loading from -/
+def restartBase (s : State) (freshPool : Bool) : State :=
+  if freshPool then { s with locked := fun _ => 0, out := [], poolV1 := [], poolV2 := [] }
+  else { s with locked := fun _ => 0, out := [] }
+
+/-- **restart_reloads.** A restart offers every stored broadcast set that is not older than the
+rebroadcast period to the pool, in the store's order, whatever older sets are stored before,
+between or after them (`reloadable` skips exactly the expired ones); and what a set put into the
+pool stays there while the remaining sets are offered. -/
+theorem restart_reloads (s : State) (f : Bool) (before after : List (List PTxn)) (set : List PTxn)
+    (h : s.reloadable = before ++ set :: after) (p : PTxn)
+    (hp : p ∈ ((before.foldl State.addSet (restartBase s f)).addSet set).poolV2) :
+    p ∈ (s.restart f).poolV2 := by
+  have : s.restart f = s.reloadable.foldl State.addSet (restartBase s f) := by
+    unfold State.restart restartBase; cases f <;> rfl
+  rw [this, h, List.foldl_append, List.foldl_cons]
+  exact foldl_addSet_poolV2_mono after _ p hp
+
+theorem reloadable_spec (s : State) (set : List PTxn) :
+    set ∈ s.reloadable ↔ ∃ b ∈ s.bsets, b.expired = false ∧ b.txns = set := by
+  simp [State.reloadable, and_assoc]
+
+/-- in particular an unexpired set of one transaction that the pool accepts at its turn (alone on
+the tip and on top of what was re-loaded before it) is in the pool after the restart -/
+theorem restart_reloads_single (s : State) (f : Bool) (before after : List (List PTxn)) (p : PTxn)
+    (h : s.reloadable = before ++ [p] :: after)
+    (h1 : ({ before.foldl State.addSet (restartBase s f) with poolV1 := [], poolV2 := [] } : State).accepts true (p.ins.map (·.id)) = true)
+    (h2 : (before.foldl State.addSet (restartBase s f)).accepts true (p.ins.map (·.id)) = true) :
+    p ∈ (s.restart f).poolV2 :=
+  restart_reloads s f before after [p] h p (addSet_single _ p h1 h2)
 
 /-! ### the views agree -/
 
@@ -312,6 +343,11 @@ disagreed with `Balance`): both views drop output 1 -/
 example :
     let s := (s0.xspend true 1 0 300).1
     s.balance.spendable = 300 ∧ s.spendable = [⟨2, 200, 4⟩, ⟨3, 100, 5⟩] := by decide
+/-- an expired set stored ahead of a fresh one does not stop the reload: after a restart with a new
+manager the broadcast transaction is pooled again and both views drop its input -/
+example :
+    let s := ((((s0.stale).fund stdSorter 0 true 250 false 0 [(250, false)]).1.bcast 0 true).1).restart true
+    s.poolV2.length = 1 ∧ s.balance.spendable = 0 ∧ s.spendable = [] := by decide
 example : Inv s0 := inv'_restart _ _
 example : StoreWF s0 := ⟨by decide, by simp [s0, State.init]⟩
 example : PoolOrdered ((s0.xspend true 1 0 300).1.poolV1 ++ (s0.xspend true 1 0 300).1.poolV2) := by
